@@ -83,8 +83,6 @@ def get(ctx):
   for f in fails:
     cases = None
     for cl in f["c"]:
-      if cl.startswith("MACHINERY"):
-        raise tlc.MachineryError("Core case could not be judged (%s): %s" % (cl, json.dumps(f["case"])[:600]))
       if cl.startswith("Core."):
         notes[cl] = notes.get(cl, 0) + 1
         continue
@@ -96,6 +94,8 @@ def get(ctx):
       viol.append({"clause": cl, "core_chunk": chunk,
                    "what": "Core case %s from %s: exc=%r; after %s; after undo %s" % (
                      json.dumps(c["a"]), json.dumps(c["S"]), c["exc"], json.dumps(c["after"]), json.dumps(c["undo"]))})
+  if n and notes.get("Core.load-failed", 0) + notes.get("Core.load-mismatch", 0) > n // 2:
+    raise tlc.MachineryError("Core: most cases could not be brought to their state: %r" % (notes,))
   out = {"violations": viol, "notes": notes, "n_cases": n, "n_pairs": n_pairs, "distinct": res["distinct"],
          "generated": res["generated"], "ops": ops, "tlc_wall": round(wall, 1), "key": key, "reused": False}
   os.makedirs(cdir, exist_ok=True)
